@@ -191,13 +191,15 @@ Strong(type, rid, ver) == [type |-> type, rid |-> rid, hist |-> ver]
 StrongInfo(r) == Rest(r.type, "", r.rid, r.hist)
 WeakInfo(text) == Parse(text)
 
-(* A reference as the comparison sees it: what kind of reference element it *)
-(* is and, for URI references, the text.                                    *)
+(* A reference element as the comparison sees it:                            *)
 (*   shape "strong": typed reference (type, rid, ver)                       *)
 (*   shape "weak" / "weaknt": URI reference `text` with / without a         *)
 (*       Reference.type element                                             *)
 (*   shape "frag": fragment reference to contained resource rid             *)
-(*   shape "logical": identifier only, no literal reference                 *)
+(*   shape "none": NO literal part at all (logical / display-only /         *)
+(*       type-only / empty Reference)                                       *)
+(*   ident: the logical identifier ("" = none), display: the display text;  *)
+(*   both may accompany any shape.                                          *)
 NoIdentity == [has |-> FALSE, type |-> "", rid |-> "", ver |-> ""]
 IdentityOfInfo(c) == [has |-> TRUE, type |-> c.type, rid |-> c.rid, ver |-> c.ver]
 IdentityOfRef(r) ==
@@ -205,19 +207,27 @@ IdentityOfRef(r) ==
     [] r.shape \in {"weak", "weaknt"} ->
          (LET p == Parse(r.text) IN IF p.k = "ok" /\ p.c.form = "rest" THEN IdentityOfInfo(p.c) ELSE NoIdentity)
     [] OTHER -> NoIdentity
+HasLiteral(r) == r.shape # "none"
 
 VersionsAgree(a, b) ==
   IF Mutant = "versionWildcard" THEN a.ver = "" \/ b.ver = "" \/ a.ver = b.ver ELSE a.ver = b.ver
 
-(* Two references are the same reference when they are the same element or  *)
-(* both name a REST identity and the identities are equal.  RefInfo is the  *)
-(* parse of a reference, computed once per reference.                       *)
+(* Two references are the same reference when they are the same element, or *)
+(* their logical identifiers agree and                                      *)
+(*   - neither has a literal part, or                                       *)
+(*   - both name a REST identity and the identities are equal.              *)
+(* A literal part on ONE side only is never "the same": the guard looks at  *)
+(* BOTH operands (mutant "leftOnlyLiteralGuard" looks at the first only and *)
+(* loses symmetry).  RefInfo is the parse of a reference, computed once.    *)
 RefInfo(r) ==
-  [ref |-> r, id |-> IdentityOfRef(r),
+  [ref |-> r, id |-> IdentityOfRef(r), lit |-> HasLiteral(r),
    base |-> IF r.shape \in {"weak", "weaknt"} THEN Parse(r.text).c.base ELSE ""]
 SameRefI(x, y) ==
   \/ x.ref = y.ref
-  \/ x.id.has /\ y.id.has /\ x.id.type = y.id.type /\ x.id.rid = y.id.rid /\ VersionsAgree(x.id, y.id)
+  \/ /\ x.ref.ident = y.ref.ident
+     /\ IF x.lit \/ (y.lit /\ Mutant # "leftOnlyLiteralGuard")
+        THEN x.id.has /\ y.id.has /\ x.id.type = y.id.type /\ x.id.rid = y.id.rid /\ VersionsAgree(x.id, y.id)
+        ELSE TRUE
 SameRef(a, b) == SameRefI(RefInfo(a), RefInfo(b))
 
 (* --------------------------------------------------------------- canonical *)
